@@ -7,10 +7,12 @@ CONSTANTS
   MaxCalls = 1
   MaxFaults = 1
   InitKr = {""}
-  ArgKeys = {"k1","k2"}
+  ArgKeys = {}
   FreshKeys = {"k2","k3","k4"}
   InitSts = {"missing"}
   InitModes = {"secure","loose"}
+  CtorSet = {"new"}
+  DirSet = {"none"}
 INVARIANT TypeOK
 INVARIANT KeyCreatedOnce
 INVARIANT OpensUseKeyringKey
